@@ -335,7 +335,8 @@ class Agent(dbus.service.Object):
         try:
             ctr = self._fwd_queue.pop(0)
 
-            for blk in list(ctr.block_type(PreviousNodeBlock)):
+            # by type code: also a block whose content could not be decoded
+            for blk in list(ctr.block_type(PreviousNodeBlock._overload_fields[CanonicalBlock]['type_code'])):
                 ctr.remove_block(blk)
             ctr.add_block(CanonicalBlock() / PreviousNodeBlock(node=self._config.node_id))
 
@@ -344,7 +345,7 @@ class Agent(dbus.service.Object):
                 # the encoded block data is stale now
                 blk.delfieldval('btsd')
 
-            for blk in list(ctr.block_type(BundleAgeBlock)):
+            for blk in list(ctr.block_type(BundleAgeBlock._overload_fields[CanonicalBlock]['type_code'])):
                 ctr.remove_block(blk)
             create_dtntime = ctr.bundle.primary.create_ts.getfieldval('dtntime')
             if create_dtntime != 0:
